@@ -257,5 +257,50 @@ static void fixed_slot_by_reference()
   fflush(stdout);
 }
 
+// Fixed scenario: sigc::signal_connect() behaves as signal.connect(mem_fun(obj, fun)) / connect(ptr_fun(fun)):
+// references stay references, the result comes back, and the slot dies with the object.
+struct SCTr : public sigc::trackable
+{
+  long seen = 0;
+  long m(long& x, long y) { x += 20; seen += y; return x + y; }
+  long cm(long& x, long y) const { x += 30; return x - y; }
+};
+static long sc_fp(long& x, std::string& s) { x += 40; s += "77"; return x; }
+static void fixed_signal_connect()
+{
+  std::string out;
+  {
+    sigc::signal<long(long&, long)> g;
+    auto* t = new SCTr;
+    sigc::connection c = sigc::signal_connect(g, *t, &SCTr::m);
+    long x = 2; long r = g.emit(x, 5);
+    out += "M:x=" + std::to_string(x) + ",r=" + std::to_string(r) + ",seen=" + std::to_string(t->seen);
+    delete t;
+    out += ",size=" + std::to_string(g.size()) + ",conn=" + std::to_string(c.connected());
+    x = 1; r = g.emit(x, 5);
+    out += ",after=" + std::to_string(x) + "/" + std::to_string(r);
+  }
+  {
+    sigc::signal<long(long&, long)> g;
+    auto* t = new SCTr;
+    const SCTr& ct = *t;
+    sigc::connection c = sigc::signal_connect(g, ct, &SCTr::cm);
+    long x = 2; long r = g.emit(x, 5);
+    out += " C:x=" + std::to_string(x) + ",r=" + std::to_string(r);
+    delete t;
+    out += ",size=" + std::to_string(g.size()) + ",conn=" + std::to_string(c.connected());
+  }
+  {
+    sigc::signal<long(long&, std::string&)> g;
+    sigc::connection c = sigc::signal_connect(g, &sc_fp);
+    long x = 2; std::string s = "n="; long r = g.emit(x, s);
+    out += " F:x=" + std::to_string(x) + ",s=" + s + ",r=" + std::to_string(r);
+    c.disconnect();
+    out += ",size=" + std::to_string(g.size());
+  }
+  printf("fixed sigconn %s\n", out.c_str());
+  fflush(stdout);
+}
+
 static void begin_case(int n) { printf("case %d", n); }
 static void end_case() { printf("\n"); fflush(stdout); }
